@@ -240,7 +240,7 @@ let ref_op c : (int * obj) list * (unit -> (string * verdict) list) =
   | "topological_closure_assign" ->
       (* the closure of a non-empty polyhedron is its relaxation (PolyOps.relax_least); the closure of the empty set is empty *)
       let close s = (match nonempty_sys nbx s with Some true -> relax s | Some false -> false_sys | None -> raise (Skip "undecided emptiness")) in
-      [ id, map_op x close true ], none     (* the flag is left as it is *)
+      [ id, map_op x close false ], none     (* ClosureAssign: `reduced' is cleared (since /repo fd3faff) *)
   | ("pairwise_reduce" | "collapse" | "collapse_all") when List.exists (fun (d : pd) -> snd d = None) x.s.seq0 ->
       raise (Skip "a disjunct has no validated generator hint")
   | "omega_reduce" -> [ id, omega x ], none
@@ -300,8 +300,11 @@ let ref_query c (ans : string list) : (int * obj) list * (string * verdict) list
   | "equals" -> let yid, y = arg () in
       if yid = id then raise (Skip "aliased");
       [ id, omega x; yid, omega y ], sound "equals_sound" (lazy (unions_equiv nbx (systems x.s) (systems y.s)))
-  | "strictly_contains" -> let _, y = arg () in
-      [ id, omega x ], sound "strictly_contains_sound" (lazy (unions_incl nbx (systems y.s) (systems x.s)))
+  | "strictly_contains" -> let yid, y = arg () in
+      if yid = id then raise (Skip "aliased");
+      let ((x', y'), b) = strictly_contains_ps (ent nbx) (bot nbx) (ub n nbx) (p_sc nbx) never x.s y.s in
+      [ id, { x with s = x' }; yid, { y with s = y' } ],
+      cmp "strictly_contains_model" (lazy (Some b)) @ sound "strictly_contains_sound" (lazy (unions_incl nbx (systems y.s) (systems x.s)))
   | _ -> raise (Skip ("query " ^ q))
 
 (* ---- copy-on-write handles against the heap model ---- *)
